@@ -218,6 +218,45 @@ Fixpoint present (cs : list cell) : list num :=
 Definition cmi_of (cs : list cell) : cmi :=
   match range_of (present cs) with None => CNone | Some r => CRange r end.
 
+(* ---------- flush-time consolidation of a column that received numbers AND strings ----------
+   segstore.go consolidateColumnTypes / convertColumnToNumbers: at the block flush every string of the column is
+   parsed (strconv.ParseInt, else ParseFloat); if all parse, the column is rewritten to numbers and every parsed
+   value is added to the block's range entry (addIntToRangeIndex / addFloatToRangeIndex) after the native numbers,
+   which were added when they arrived; if one string does not parse the column becomes a string column and the
+   range entry is deleted. *)
+Inductive rcell := RNum (v : num) | RStr (s : bytes) | RAbsent.
+
+Definition str_num (s : bytes) : option num :=
+  match classify s with
+  | LInt _ z => if (- two63 <=? z) && (z <? two63) then Some (VI z) else Some (VF (inject_Z z))
+  | LDec q => Some (VF q)
+  | LBad => None
+  end.
+
+Fixpoint natives (cs : list rcell) : list num :=
+  match cs with [] => [] | RNum v :: r => v :: natives r | _ :: r => natives r end.
+Fixpoint str_vals (cs : list rcell) : option (list num) :=
+  match cs with
+  | [] => Some []
+  | RStr s :: r => match str_num s, str_vals r with Some v, Some vs => Some (v :: vs) | _, _ => None end
+  | _ :: r => str_vals r
+  end.
+(* the numeric values the readers of the block return after a successful conversion, in record order *)
+Fixpoint stored_values (cs : list rcell) : option (list num) :=
+  match cs with
+  | [] => Some []
+  | RNum v :: r => option_map (cons v) (stored_values r)
+  | RStr s :: r => match str_num s, stored_values r with Some v, Some vs => Some (v :: vs) | _, _ => None end
+  | RAbsent :: r => stored_values r
+  end.
+
+(* the block's range entry after the flush *)
+Definition block_index (cs : list rcell) : option numbers :=
+  match str_vals cs with
+  | Some svs => fold_left upd_range svs (range_of (natives cs))
+  | None => None
+  end.
+
 (* ---------- specification side: comparison by numeric value ---------- *)
 Definition qval (v : num) : Q := match v with VI z | VU z => inject_Z z | VF q => q end.
 Definition lit_val (l : lit) : option Q := conv_float l.
